@@ -137,6 +137,7 @@ def wl_history(ctx, rng, case):
         keys = list(table)
         S = set()
         q_now = q
+        merged_in = []
         nops = r2.randint(5, 60)
         dense = r2.random() < 0.5  # dense histories fill the table (runs, clusters, wrap-around)
         for step in range(nops):
@@ -187,7 +188,7 @@ def wl_history(ctx, rng, case):
                     after = (sorted(g(line_limit(f.size) * 4, f.get_hashes)), f.quotient, f.elements_added)
                     ctx.check(after == before, f"a refused resize({q2}) changed the filter (step {step})", before=before[1:], after=after[1:])
             elif r < 0.97:
-                q3 = r2.choice([3, 4, 5])
+                q3 = r2.choice([3, 4, 5, f.quotient, f.quotient])
                 other = P.QuotientFilter(quotient=q3, auto_expand=True, hash_function=hf)
                 S2 = set(r2.sample(U, r2.randint(0, min(len(U), 6))))
                 for h in S2:
@@ -203,11 +204,17 @@ def wl_history(ctx, rng, case):
                     ctx.check(S <= got <= (S | S2), f"a merge that raised left hashes outside [before, before U other] (step {step})")
                     S = got
                 ctx.check(sorted(other.get_hashes()) == sorted(S2), f"merge modified its argument (step {step})")
+                merged_in.append((other, set(S2)))
             else:
                 mlf = r2.choice([0.5, 0.85, 0.99, 0.3])
                 case.op("max_load_factor", mlf)
                 f.max_load_factor = mlf
             probe(ctx, g, f, S, U, None, f"after step {step} ({case.ops[-1]}), quotient {f.quotient}, {len(S)} stored")
+            for o, So in merged_in[-2:]:
+                # a filter that was merged in earlier must not be affected by what happens to the receiver afterwards (no shared storage)
+                ctx.check(sorted(o.get_hashes()) == sorted(So) and o.elements_added == len(So),
+                          f"a filter merged in earlier changed while the receiver evolved (step {step})", got=o.elements_added, want=len(So))
+                ctx.count("aliasing_checks")
             ctx.maximum("max_load", len(S) / f.size)
             if len(S) == f.size:
                 ctx.count("probes_on_completely_full_table")
